@@ -17,6 +17,27 @@ Proof.
   rewrite (pairs_ext bf bf'); [reflexivity|]. intros j a b Hj. apply H. rewrite firstn_length in Hj. lia.
 Qed.
 
+Lemma pows_range p wv : 0 < p -> forall cnt cur, 0 <= cur < p -> Forall (fun v => 0 <= v < p) (pows p wv cnt cur).
+Proof. intros Hp. induction cnt as [|c IH]; intros cur Hc; cbn [pows]; constructor; [exact Hc|]. apply IH. apply Z.mod_pos_bound. exact Hp. Qed.
+Lemma flat_range p k : 1 < p -> forall om, Forall (fun v => 0 <= v < p) (flat p k om).
+Proof.
+  intros Hp. unfold flat. induction k as [|k IH]; intros om; cbn [prep concat]; [constructor|].
+  apply Forall_app. split; [apply pows_range; lia | apply IH].
+Qed.
+Lemma shoup_range w p l : 0 < w -> 0 < p -> Forall (fun v => 0 <= v < p) l -> Forall (fun v => 0 <= v < 2 ^ w) (map (fun v => (v * 2 ^ w) / p) l).
+Proof.
+  intros Hw Hp F. assert (0 < 2 ^ w) by (apply Z.pow_pos_nonneg; lia).
+  induction F as [|v l Hv F IH]; cbn [map]; constructor; [|exact IH].
+  split; [apply Z.div_pos; nia | apply Z.div_lt_upper_bound; nia].
+Qed.
+Lemma off_mul k a : forall lvl, (a + lvl <= k)%nat -> exists q, off k lvl = (2 ^ a * q)%nat.
+Proof.
+  induction lvl as [|l IH]; intros H; [exists 0%nat; cbn [off]; lia|].
+  destruct (IH ltac:(lia)) as [q Hq]. exists (q + 2 ^ (k - l - 1 - a))%nat. cbn [off]. rewrite Hq.
+  replace (k - l - 1)%nat with (a + (k - l - 1 - a))%nat at 1 by lia. rewrite Nat.pow_add_r. lia.
+Qed.
+
+
 Definition strict1 (p v : Z) : Z := if v >=? p then v - p else v.
 
 Section Inst.
@@ -74,6 +95,38 @@ Proof.
   eapply (row_s1_ok bf4 W W' Rx Rx Rwt); try side lvl.
 Qed.
 
+(* rows done by vector kernels: L = 2^a elements per register *)
+Definition kern_hyp (bits : Z) (words : nat) (vkp : Z -> list Z -> list Z -> list Z -> list Z -> list Z * list Z) : Prop :=
+  forall A B I Wt, length A = elts bits words -> length B = elts bits words -> length I = elts bits words -> length Wt = elts bits words ->
+  Forall Rx A -> Forall Rx B -> Forall Rx I -> Forall Rwt Wt ->
+  let r := vkp p (enc bits A) (enc bits B) (enc bits I) (enc bits Wt) in
+  dec bits (fst r) = map fst (zip4 bf4 A B I Wt) /\ dec bits (snd r) = map snd (zip4 bf4 A B I Wt).
+Lemma pow_split a b : (a <= b)%nat -> (2 ^ b = 2 ^ a * 2 ^ (b - a))%nat.
+Proof. intros H. rewrite <- Nat.pow_add_r. f_equal. lia. Qed.
+Lemma rowok_v bits words vkp a lvl : elts bits words = (2 ^ a)%nat -> kern_hyp bits words vkp -> (a + lvl + 1 <= k)%nat ->
+  RowOK bf4 W W' k Rx (row_v bits words (Z.of_nat (elts bits words)) vkp p W W' 0) lvl.
+Proof.
+  intros HL HK Hl x Hx Fx r Hr. pose proof (off_fits k lvl ltac:(lia)).
+  destruct (off_mul k a lvl ltac:(lia)) as [woq Hwo].
+  eapply (row_v_ok bf4 W W' Rx Rx Rwt) with (woq := woq) (q := (2 ^ (k - lvl - 1 - a))%nat); try side lvl.
+  all: rewrite ?HL; first [exact Hwo | exact HK | apply pow_split; lia | apply Nat.neq_0_lt_0, Nat.pow_nonzero; lia].
+Qed.
+Lemma rowok_avx2 bits vk8 vk4 a lvl : elts bits 4 = (2 ^ a)%nat -> elts bits 8 = (2 * elts bits 4)%nat -> kern_hyp bits 8 vk8 -> kern_hyp bits 4 vk4 -> (a + lvl + 1 <= k)%nat ->
+  RowOK bf4 W W' k Rx (row_avx2 bits (Z.of_nat (elts bits 8)) vk8 vk4 p W W' 0) lvl.
+Proof.
+  intros HL4 HL8 HK8 HK4 Hl x Hx Fx r Hr. pose proof (off_fits k lvl ltac:(lia)).
+  assert (P4 : (0 < elts bits 4)%nat) by (rewrite HL4; apply Nat.neq_0_lt_0, Nat.pow_nonzero; lia).
+  assert (E8 : elts bits 8 = (2 ^ S a)%nat) by (rewrite HL8, HL4, Nat.pow_succ_r'; reflexivity).
+  destruct (Nat.eq_dec (k - lvl - 1) a) as [Eq|Ne].
+  - (* blocks of two SSE registers: the AVX2 loop is empty *)
+    destruct (off_mul k (S a) lvl ltac:(lia)) as [woq Hwo].
+    eapply (row_avx2_half bf4 W W' Rx Rx Rwt) with (woq := woq); try side lvl.
+    all: rewrite ?E8; first [exact Hwo | exact HK4 | rewrite HL4, Eq; reflexivity].
+  - destruct (off_mul k (S a) lvl ltac:(lia)) as [woq Hwo].
+    eapply (row_avx2_full bf4 W W' Rx Rx Rwt) with (woq := woq) (q := (2 ^ (k - lvl - 1 - S a))%nat); try side lvl.
+    all: rewrite ?E8; first [exact Hwo | exact HK8 | apply pow_split; lia].
+Qed.
+
 Definition result (x0 : list Z) : list Z :=
   map (strict1 p) (fpass (fused w p) (2 ^ (k - 2)) (nth (off k (k - 2) + 1) W 0) (nth (off k (k - 2) + 1) W' 0) (upto bf4 W W' k (k - 2) x0)).
 
@@ -102,26 +155,6 @@ Proof.
   - apply fused_out.
 Qed.
 End Inst.
-
-Lemma pows_range p wv : 0 < p -> forall cnt cur, 0 <= cur < p -> Forall (fun v => 0 <= v < p) (pows p wv cnt cur).
-Proof. intros Hp. induction cnt as [|c IH]; intros cur Hc; cbn [pows]; constructor; [exact Hc|]. apply IH. apply Z.mod_pos_bound. exact Hp. Qed.
-Lemma flat_range p k : 1 < p -> forall om, Forall (fun v => 0 <= v < p) (flat p k om).
-Proof.
-  intros Hp. unfold flat. induction k as [|k IH]; intros om; cbn [prep concat]; [constructor|].
-  apply Forall_app. split; [apply pows_range; lia | apply IH].
-Qed.
-Lemma shoup_range w p l : 0 < w -> 0 < p -> Forall (fun v => 0 <= v < p) l -> Forall (fun v => 0 <= v < 2 ^ w) (map (fun v => (v * 2 ^ w) / p) l).
-Proof.
-  intros Hw Hp F. assert (0 < 2 ^ w) by (apply Z.pow_pos_nonneg; lia).
-  induction F as [|v l Hv F IH]; cbn [map]; constructor; [|exact IH].
-  split; [apply Z.div_pos; nia | apply Z.div_lt_upper_bound; nia].
-Qed.
-Lemma off_mul k a : forall lvl, (a + lvl <= k)%nat -> exists q, off k lvl = (2 ^ a * q)%nat.
-Proof.
-  induction lvl as [|l IH]; intros H; [exists 0%nat; cbn [off]; lia|].
-  destruct (IH ltac:(lia)) as [q Hq]. exists (q + 2 ^ (k - l - 1 - a))%nat. cbn [off]. rewrite Hq.
-  replace (k - l - 1)%nat with (a + (k - l - 1 - a))%nat at 1 by lia. rewrite Nat.pow_add_r. lia.
-Qed.
 
 (* ---- on the library's tables: the level-indexed tables of the transform model are the flat arrays at the offsets the code computes ---- *)
 Section OnTables.
